@@ -9,6 +9,8 @@ import PMV.Model.Traverse
 namespace PMV.PyCore
 open PMV PMV.Traverse
 
+variable {o : Bool}
+
 /-- `r'` refines `r`: unless `r` is outside the core, `r'` is `r` -/
 def Res.le (r r' : Res Flow) : Prop := r = .stuck ∨ r' = r
 
@@ -38,6 +40,8 @@ structure ExprOK (m : ExprMap) : Prop where
   notName : ∀ e, nameOf e = none → nameOf (m.e e) = none
   params : ∀ a, paramNames (m.args a) = paramNames a
   handlerTy : ∀ ty, excKind (mapO m.e ty) = excKind ty
+  debugKeep : ∀ e, isDebugTest e = true → isDebugTest (m.e e) = true
+  debugNew : ∀ s e, isDebugTest e = false → isDebugTest (m.e e) = true → evalE s e = none
 
 theorem evalArgs_map (m : ExprMap) (h : ExprOK m) (s : St) : ∀ args : List Expr,
     evalArgs s args ≠ none → evalArgs s (args.map m.e) = evalArgs s args
@@ -285,13 +289,13 @@ theorem globals_mapBody (m : ExprMap) : ∀ b, declaredGlobals (mapBody m b) = d
   | st :: rest => by simp [mapBody, declaredGlobals, globalsOf_mapStmt, globals_mapBody m rest]
 
 /-- the refinement claim at one fuel level -/
-def GoodM (m : ExprMap) (ft : FTab) (n : Nat) : Prop :=
-  (∀ s st, Res.le (exec1 ft n s st) (exec1 (mapFT m ft) n s (mapStmt m st))) ∧
-  (∀ s l, Res.le (execL ft n s l) (execL (mapFT m ft) n s (mapBody m l)))
+def GoodM (o : Bool) (m : ExprMap) (ft : FTab) (n : Nat) : Prop :=
+  (∀ s st, Res.le (exec1 ⟨ft, o⟩ n s st) (exec1 ⟨mapFT m ft, o⟩ n s (mapStmt m st))) ∧
+  (∀ s l, Res.le (execL ⟨ft, o⟩ n s l) (execL ⟨mapFT m ft, o⟩ n s (mapBody m l)))
 
-theorem callFn_le (m : ExprMap) (h : ExprOK m) (ft : FTab) (n : Nat) (ih : ∀ k, k < n → GoodM m ft k)
+theorem callFn_le (m : ExprMap) (h : ExprOK m) (ft : FTab) (n : Nat) (ih : ∀ k, k < n → GoodM o m ft k)
     (s : St) (f : String) (args : List Expr) (tgt : Option String) :
-    Res.le (callFn ft n s f args tgt) (callFn (mapFT m ft) n s f (args.map m.e) tgt) := by
+    Res.le (callFn ⟨ft, o⟩ n s f args tgt) (callFn ⟨mapFT m ft, o⟩ n s f (args.map m.e) tgt) := by
   rw [callFn, callFn]
   cases hargs : evalArgs s args with
   | none => left; rfl
@@ -318,14 +322,14 @@ theorem callFn_le (m : ExprMap) (h : ExprOK m) (ft : FTab) (n : Nat) (ih : ∀ k
             · right; simp only [hb]
 
 theorem execL_cons_le (ft ft' : FTab) (n : Nat) (s : St) (st st' : Stmt) (rest rest' : List Stmt)
-    (h1 : Res.le (exec1 ft n s st) (exec1 ft' n s st'))
-    (h2 : ∀ s', Res.le (execL ft n s' rest) (execL ft' n s' rest')) :
-    Res.le (execL ft n s (st :: rest)) (execL ft' n s (st' :: rest')) := by
+    (h1 : Res.le (exec1 ⟨ft, o⟩ n s st) (exec1 ⟨ft', o⟩ n s st'))
+    (h2 : ∀ s', Res.le (execL ⟨ft, o⟩ n s' rest) (execL ⟨ft', o⟩ n s' rest')) :
+    Res.le (execL ⟨ft, o⟩ n s (st :: rest)) (execL ⟨ft', o⟩ n s (st' :: rest')) := by
   rw [execL_cons, execL_cons]
   rcases h1 with h1 | h1
   · left; rw [h1]
   · rw [h1]
-    cases exec1 ft n s st with
+    cases exec1 ⟨ft, o⟩ n s st with
     | ok fl =>
       cases fl with
       | normal s' => exact h2 s'
@@ -333,20 +337,25 @@ theorem execL_cons_le (ft ft' : FTab) (n : Nat) (s : St) (st st' : Stmt) (rest r
     | _ => right; rfl
 
 
-theorem flat_le (m : ExprMap) (h : ExprOK m) (ft : FTab) (n : Nat) (ih : ∀ k, k < n → GoodM m ft k)
+theorem flat_le (m : ExprMap) (h : ExprOK m) (ft : FTab) (n : Nat) (ih : ∀ k, k < n → GoodM o m ft k)
     (s : St) (st : Stmt) (hst : isBlockStmt st = false) :
-    Res.le (exec1 ft n s st) (exec1 (mapFT m ft) n s (mapStmt m st)) := by
+    Res.le (exec1 ⟨ft, o⟩ n s st) (exec1 ⟨mapFT m ft, o⟩ n s (mapStmt m st)) := by
   have hst' : isBlockStmt (mapStmt m st) = false := by
     cases st
     case try_ star _ _ _ _ => cases star <;> first | rfl | simp [isBlockStmt] at hst
     case for_ isAsync _ _ _ _ => cases isAsync <;> first | rfl | simp [isBlockStmt] at hst
     all_goals first | rfl | simp [isBlockStmt] at hst
+  have hasrt : isAssertStmt (mapStmt m st) = isAssertStmt st := by cases st <;> rfl
   rw [exec1_flat _ _ _ _ hst, exec1_flat _ _ _ _ hst']
   unfold flatExec
-  rw [callOf_map m h st]
-  cases callOf st with
-  | none => exact simpleExec_le m h s st
-  | some p => obtain ⟨f, args, tgt⟩ := p; exact callFn_le m h ft n ih s f args tgt
+  rw [callOf_map m h st, hasrt]
+  simp only
+  by_cases ha : (o && isAssertStmt st) = true
+  · simp only [ha, if_true]; exact Res.le_refl _
+  · simp only [ha, Bool.false_eq_true, if_false]
+    cases callOf st with
+    | none => exact simpleExec_le m h s st
+    | some p => obtain ⟨f, args, tgt⟩ := p; exact callFn_le m h ft n ih s f args tgt
 
 def isTuple : Expr → Bool
   | .tuple _ => true
@@ -413,10 +422,10 @@ theorem forRange_map (m : ExprMap) (h : ExprOK m) (tg it : Expr) :
 
 /-- `for` loops refine when body and `else` refine at every fuel up to the current one -/
 theorem execFor_le (ft ft' : FTab) (body body' orelse orelse' : List Stmt) (N : Nat)
-    (hb : ∀ f, f ≤ N → ∀ s, Res.le (execL ft f s body) (execL ft' f s body'))
-    (ho : ∀ f, f ≤ N → ∀ s, Res.le (execL ft f s orelse) (execL ft' f s orelse')) :
+    (hb : ∀ f, f ≤ N → ∀ s, Res.le (execL ⟨ft, o⟩ f s body) (execL ⟨ft', o⟩ f s body'))
+    (ho : ∀ f, f ≤ N → ∀ s, Res.le (execL ⟨ft, o⟩ f s orelse) (execL ⟨ft', o⟩ f s orelse')) :
     ∀ f, f ≤ N → ∀ (s : St) (x : String) (i k : Int),
-      Res.le (execFor ft f s x i k body orelse) (execFor ft' f s x i k body' orelse') := by
+      Res.le (execFor ⟨ft, o⟩ f s x i k body orelse) (execFor ⟨ft', o⟩ f s x i k body' orelse') := by
   intro f
   induction f with
   | zero =>
@@ -433,7 +442,7 @@ theorem execFor_le (ft ft' : FTab) (body body' orelse orelse' : List Stmt) (N : 
       rcases hb (f + 1) hf (s.assign x (.int i)) with hs | hs
       · left; rw [hs]
       · rw [hs]
-        cases execL ft (f + 1) (s.assign x (.int i)) body with
+        cases execL ⟨ft, o⟩ (f + 1) (s.assign x (.int i)) body with
         | ok fl =>
           cases fl with
           | normal s' => exact ihf (Nat.le_of_succ_le hf) s' x (i + 1) k
@@ -442,6 +451,21 @@ theorem execFor_le (ft ft' : FTab) (body body' orelse orelse' : List Stmt) (N : 
           | returned v s' => right; rfl
         | _ => right; rfl
     · simp only [hik, if_false]; exact ho (f + 1) hf s
+
+/-- the value of an `if` test is refined -/
+theorem condE_map (m : ExprMap) (h : ExprOK m) (s : St) (c : Expr) :
+    condE o s c = none ∨ condE o s (m.e c) = condE o s c := by
+  unfold condE
+  by_cases hd : isDebugTest c = true
+  · right; simp [hd, h.debugKeep c hd]
+  · have hd' : isDebugTest c = false := by simpa using hd
+    simp only [hd, Bool.false_eq_true, if_false]
+    by_cases hm : isDebugTest (m.e c) = true
+    · left; exact h.debugNew s c hd' hm
+    · simp only [hm, Bool.false_eq_true, if_false]
+      cases hc : evalE s c with
+      | none => left; rfl
+      | some r => right; rw [h.evalOK s c (by simp [hc]), hc]
 
 theorem afterBody_le (r0 r0' : Res Flow) (e e' : St → Res Flow) (hd hd' : String → St → Res Flow)
     (h0 : Res.le r0 r0') (he : ∀ s, Res.le (e s) (e' s)) (hh : ∀ x s, Res.le (hd x s) (hd' x s)) :
@@ -472,21 +496,31 @@ theorem withFinally_le (r1 r1' : Res Flow) (f f' : St → Res Flow)
       · right; simp only [hs]
 
 mutual
-theorem exec1_le (m : ExprMap) (h : ExprOK m) (ft : FTab) (n : Nat) (ih : ∀ k, k < n → GoodM m ft k) :
-    (st : Stmt) → (s : St) → Res.le (exec1 ft n s st) (exec1 (mapFT m ft) n s (mapStmt m st))
+theorem exec1_le (m : ExprMap) (h : ExprOK m) (ft : FTab) (n : Nat) (ih : ∀ k, k < n → GoodM o m ft k) :
+    (st : Stmt) → (s : St) → Res.le (exec1 ⟨ft, o⟩ n s st) (exec1 ⟨mapFT m ft, o⟩ n s (mapStmt m st))
   | .if_ c body orelse, s => by
     simp only [mapStmt]
     rw [exec1.eq_1, exec1.eq_1]
-    cases hc : evalE s c with
-    | none => left; rfl
-    | some r =>
-      rw [h.evalOK s c (by simp [hc]), hc]
-      cases r with
-      | error x => right; rfl
-      | ok v =>
-        by_cases hv : v.truthy = true
-        · simp only [hv, if_true]; exact execL_le m h ft n ih body s
-        · simp only [hv, Bool.false_eq_true, if_false]; exact execL_le m h ft n ih orelse s
+    show Res.le (match condE o s c with
+        | some (.ok v) => if v.truthy then execL ⟨ft, o⟩ n s body else execL ⟨ft, o⟩ n s orelse
+        | some (.error x) => .raised x s
+        | none => .stuck)
+      (match condE o s (m.e c) with
+        | some (.ok v) => if v.truthy then execL ⟨mapFT m ft, o⟩ n s (mapBody m body) else execL ⟨mapFT m ft, o⟩ n s (mapBody m orelse)
+        | some (.error x) => .raised x s
+        | none => .stuck)
+    rcases condE_map (o := o) m h s c with hc | hc
+    · left; rw [hc]
+    · rw [hc]
+      cases condE o s c with
+      | none => left; rfl
+      | some r =>
+        cases r with
+        | error x => right; rfl
+        | ok v =>
+          by_cases hv : v.truthy = true
+          · simp only [hv, if_true]; exact execL_le m h ft n ih body s
+          · simp only [hv, Bool.false_eq_true, if_false]; exact execL_le m h ft n ih orelse s
   | .while_ c body orelse, s => by
     simp only [mapStmt]
     cases n with
@@ -513,15 +547,15 @@ theorem exec1_le (m : ExprMap) (h : ExprOK m) (ft : FTab) (n : Nat) (ih : ∀ k,
         | ok v =>
           by_cases hv : v.truthy = true
           · simp only [hv, if_true]
-            have hw : ∀ s', Res.le (exec1 ft k s' (.while_ c body orelse))
-                (exec1 (mapFT m ft) k s' (.while_ (m.e c) (mapBody m body) (mapBody m orelse))) := by
+            have hw : ∀ s', Res.le (exec1 ⟨ft, o⟩ k s' (.while_ c body orelse))
+                (exec1 ⟨mapFT m ft, o⟩ k s' (.while_ (m.e c) (mapBody m body) (mapBody m orelse))) := by
               intro s'
               have := (ih k (Nat.lt_succ_self k)).1 s' (.while_ c body orelse)
               simpa only [mapStmt] using this
             rcases execL_le m h ft (k + 1) ih body s with hb | hb
             · left; rw [hb]
             · rw [hb]
-              cases execL ft (k + 1) s body with
+              cases execL ⟨ft, o⟩ (k + 1) s body with
               | ok fl =>
                 cases fl with
                 | normal s' => exact hw s'
@@ -541,12 +575,12 @@ theorem exec1_le (m : ExprMap) (h : ExprOK m) (ft : FTab) (n : Nat) (ih : ∀ k,
     | some p =>
       obtain ⟨x, e⟩ := p
       simp only [Option.map_some]
-      have hb : ∀ f, f ≤ n → ∀ s, Res.le (execL ft f s body) (execL (mapFT m ft) f s (mapBody m body)) := by
+      have hb : ∀ f, f ≤ n → ∀ s, Res.le (execL ⟨ft, o⟩ f s body) (execL ⟨mapFT m ft, o⟩ f s (mapBody m body)) := by
         intro f hf s
         rcases Nat.lt_or_eq_of_le hf with hlt | heq
         · exact (ih f hlt).2 s body
         · subst heq; exact execL_le m h ft f ih body s
-      have ho : ∀ f, f ≤ n → ∀ s, Res.le (execL ft f s orelse) (execL (mapFT m ft) f s (mapBody m orelse)) := by
+      have ho : ∀ f, f ≤ n → ∀ s, Res.le (execL ⟨ft, o⟩ f s orelse) (execL ⟨mapFT m ft, o⟩ f s (mapBody m orelse)) := by
         intro f hf s
         rcases Nat.lt_or_eq_of_le hf with hlt | heq
         · exact (ih f hlt).2 s orelse
@@ -591,9 +625,9 @@ theorem exec1_le (m : ExprMap) (h : ExprOK m) (ft : FTab) (n : Nat) (ih : ∀ k,
   | .pass, s => flat_le m h ft n ih s _ rfl
   | .break_, s => flat_le m h ft n ih s _ rfl
   | .continue_, s => flat_le m h ft n ih s _ rfl
-theorem execH_le (m : ExprMap) (h : ExprOK m) (ft : FTab) (n : Nat) (ih : ∀ k, k < n → GoodM m ft k) :
+theorem execH_le (m : ExprMap) (h : ExprOK m) (ft : FTab) (n : Nat) (ih : ∀ k, k < n → GoodM o m ft k) :
     (hs : List Handler) → (s : St) → (x : String) →
-      Res.le (execH ft n s x hs) (execH (mapFT m ft) n s x (mapHandlers m hs))
+      Res.le (execH ⟨ft, o⟩ n s x hs) (execH ⟨mapFT m ft, o⟩ n s x (mapHandlers m hs))
   | [], s, x => by simp only [mapHandlers]; rw [execH.eq_1, execH.eq_1]; exact Res.le_refl _
   | .mk ty nm hbody :: rest, s, x => by
     simp only [mapHandlers]
@@ -604,15 +638,15 @@ theorem execH_le (m : ExprMap) (h : ExprOK m) (ft : FTab) (n : Nat) (ih : ∀ k,
       cases b with
       | true => exact execL_le m h ft n ih hbody s
       | false => exact execH_le m h ft n ih rest s x
-theorem execL_le (m : ExprMap) (h : ExprOK m) (ft : FTab) (n : Nat) (ih : ∀ k, k < n → GoodM m ft k) :
-    (l : List Stmt) → (s : St) → Res.le (execL ft n s l) (execL (mapFT m ft) n s (mapBody m l))
+theorem execL_le (m : ExprMap) (h : ExprOK m) (ft : FTab) (n : Nat) (ih : ∀ k, k < n → GoodM o m ft k) :
+    (l : List Stmt) → (s : St) → Res.le (execL ⟨ft, o⟩ n s l) (execL ⟨mapFT m ft, o⟩ n s (mapBody m l))
   | [], s => by simp only [mapBody, execL_nil]; exact Res.le_refl _
   | st :: rest, s => by
     simp only [mapBody]
     exact execL_cons_le ft (mapFT m ft) n s st _ rest _ (exec1_le m h ft n ih st s) (fun s' => execL_le m h ft n ih rest s')
 end
 
-theorem goodM_all (m : ExprMap) (h : ExprOK m) (ft : FTab) (n : Nat) : GoodM m ft n := by
+theorem goodM_all (m : ExprMap) (h : ExprOK m) (ft : FTab) (n : Nat) : GoodM o m ft n := by
   induction n using Nat.strongRecOn with
   | _ n ih => exact ⟨fun s st => exec1_le m h ft n ih st s, fun s l => execL_le m h ft n ih l s⟩
 
